@@ -69,6 +69,7 @@ fn contract_case_on(bias: &'static str, zero: bool, grid: bool) -> BoxedStrategy
             hand_queue,
             pad_lines,
             line_style,
+            repeat: 0,
         })
         .boxed()
 }
